@@ -121,12 +121,12 @@ PROPS.update({
 })
 PROPS["C20"] = {
     "level": "proof",
-    "lean_modules": ["ApdVerif.Props.C20", "ApdVerif.Props.C01", "ApdVerif.Props.GenTieRound"],
+    "lean_modules": ["ApdVerif.Props.C20", "ApdVerif.Props.C01", "ApdVerif.Props.GenTieRound", "ApdVerif.Props.C20Scale"],
     "theorem_prefixes": ["C20_", "GenTie_"],
     "streams": [{"stream": "modes", "n": {"quick": 30000, "thorough": 500000}}],
     "projections": ["modes", "rel"],
     "oracle_tags": ["C20"],
-    "explanation": "theorems: on the specification every mode returns the RoundDown or RoundUp result, floor/ceiling are those by sign, modes coincide iff exact, down/up adjacent, mirror law, monotonicity; on the model Add/Mul commute and Sub = Add of the negation. C01 ties the operations to the specification. search: the relations are evaluated directly on implementation outputs of the same call under the eight modes and under sign/scale/order transformations (scaling law: checked, not proved)",
+    "explanation": "theorems: on the specification every mode returns the RoundDown or RoundUp result, floor/ceiling are those by sign, modes coincide iff exact, down/up adjacent, mirror law, monotonicity; on the model Add/Mul commute and Sub = Add of the negation. C01 ties the operations to the specification. search: the relations are evaluated directly on implementation outputs of the same call under the eight modes and under sign/scale/order transformations; the scaling law is a theorem too (C20_scale_spec on the specification without side conditions on the value, C20_scale_mul/_quo/_add on the model)",
 }
 COMPOSITE_NOTE = "Exp/Ln/Log10/Pow: only the special-value prologues are modelled (the series are steered by float64 estimates); their numeric results are judged by oracles"
 
